@@ -25,7 +25,7 @@ def events(cev, nodes):
         elif k == 'Start' and e[1] in nodes:
             arr = None
             for q in e[4]:
-                for (i, w, a) in q:
+                for (i, w, a, *_) in q:
                     if i == e[2]:
                         arr = a
             out.append([2, e[1], (e[3] - arr) if isinstance(arr, int) else 0])
